@@ -6,6 +6,7 @@
 import DuckModel.Runner
 import DuckModel.Spec.Machine
 import DuckModel.Lemmas.RunnerLemmas
+import DuckModel.Props.C13Flow
 
 namespace Duck
 open Duck.Spec
